@@ -26,6 +26,8 @@ CHAIN_TEMPLATES = [0, 1, 2, 3, 4, 5]     # the append-only continuations (all ba
 # ------------------------------------------------------------------ generation
 def gen_workloads(consts, mode="simulate", num=50, seed=1, timeout=300, stats=None):
     """Operation sequences from WalContract.tla (BFS = all sequences of length MaxOps)."""
+    consts = dict(consts)
+    consts.setdefault("WithHuge", False)
     cfg = cfg_text(constants=consts, invariants=["TypeOK", "Bracket", "Emit"])
     if mode == "bfs":
         r = tlc("WalContract", cfg, timeout=timeout)
@@ -474,7 +476,7 @@ def impl_trace(io_path, wd, stats):
         r = tlc("WalImplTrace", cfg, files={"io.ndjson": part}, workers=1, timeout=900, heap="8g")
         if r.error or r.violated:
             stats.setdefault("impl_drift_kinds", []).append("WalImplTrace failed: %s %s" % (r.error, r.violated))
-            stats["impl_trace_error"] = (r.errctx or r.out)[-1500:]
+            stats["impl_trace_error"] = (r.errctx or r.out)[1300:3300]
             return
         pl = tlc_payloads(r, "IMPLTRACE")
         if len(pl) != 1:
